@@ -1,4 +1,4 @@
-import sys; sys.path.insert(0,'/root/w/sev/tools'); import runlib as R
+import os, sys; sys.path.insert(0, os.path.join(os.path.dirname(os.path.abspath(__file__)), 'tools')); import runlib as R
 R.translate(); R.coq_project()
 t=sys.argv[1:] or ['Props/Properties_C01.vo','Props/Properties_C02.vo','Props/Properties_C03.vo','Props/Properties_C08.vo','Props/Properties_C15.vo','Props/Properties_C17.vo']
 ok,out=R.coq_make(t,timeout=2400)
